@@ -23,12 +23,10 @@ Open Scope Z_scope.
 
 Definition MaxI : Z := 9223372036854775807.          (* math.MaxInt64 *)
 Definition MinI : Z := -9223372036854775808.         (* math.MinInt64 *)
-Definition MaxF : Z := 9218868437227405311.          (* order key of math.MaxFloat64 *)
 
 Definition s_data : str := [65;108;105;97;115;58;68;97;116;97]%N.                    (* "Alias:Data" *)
 Definition s_rich : str := [65;108;105;97;115;58;82;105;99;104;68;97;116;97]%N.      (* "Alias:RichData" *)
 Definition s_oof : str := [79;117;116;79;102;70;117;101;108]%N.                      (* "OutOfFuel" *)
-Definition s_nan : str := [70;108;111;97;116;58;78;97;78]%N.                         (* "Float:NaN" *)
 Definition TData : ty := TOther s_data.
 Definition TRich : ty := TOther s_rich.
 Definition TOutOfFuel : ty := TOther s_oof.
@@ -288,8 +286,8 @@ Section Infer.
     | VDefault => TDefault                               (* defaulttype.go:105 *)
     | VBool b => TBoolean (Some b)                       (* booleantype.go:309 *)
     | VInt z => TInteger z z                             (* integertype.go:456 *)
-    | VFloat k => TFloat k k                             (* floattype.go:398 *)
-    | VNaN => TOther s_nan                               (* Float[NaN, NaN]: bounds outside the order keys; accepts nothing *)
+    | VFloat k => TFloat k k                             (* floattype.go:412 *)
+    | VNaN => TFloat (- InfF) InfF                       (* floattype.go:408: no range contains NaN, floatTypeDefault *)
     | VStr s => TStringVal s                             (* stringtype.go:591 *)
     | VRegexp p => TRegexp p                             (* regexptype.go:274 *)
     | VBinary _ => TBinary                               (* binarytype.go:291 *)
@@ -352,7 +350,7 @@ Section Infer.
     | TBoolean _ => TBoolean None                        (* booleantype.go:100 *)
     | TCollection _ _ => TCollection 0 MaxI              (* collectiontype.go:94 *)
     | TEnum _ _ => TEnum false []                        (* enumtype.go:118 *)
-    | TFloat _ _ => TFloat (- MaxF) MaxF                 (* floattype.go:123 *)
+    | TFloat _ _ => TFloat (- InfF) InfF                 (* floattype.go:128 floatTypeDefault *)
     | TInteger _ _ => TInteger MinI MaxI                 (* integertype.go:211 *)
     | THash k v _ _ => THash (gen false k) (gen false v) 0 MaxI          (* hashtype.go:257 *)
     | TNotUndef t => TNotUndef (gen false t)             (* notundeftype.go:83 *)
